@@ -1218,19 +1218,14 @@ impl FileFragment {
             data_file.validate(&self.dataset.data_file_dir(&self.metadata.files[0])?)?;
         }
 
+        // A data file all of whose columns were dropped or rewritten into another
+        // file has no field in common with the schema any more; it is still part
+        // of a well-formed fragment and simply has nothing to check here.
         let get_lengths = self.metadata.files.iter().map(|data_file| async move {
-            let data_file_dir = self.dataset.data_file_dir(data_file)?;
             let reader = self
                 .open_reader(data_file, None, &FragReadConfig::default())
-                .await?
-                .ok_or_else(|| {
-                    Error::corrupt_file(
-                        data_file_dir.child(data_file.path.as_str()),
-                        "did not have any fields in common with the dataset schema",
-                        location!(),
-                    )
-                })?;
-            Result::Ok(reader.len() as usize)
+                .await?;
+            Result::Ok(reader.map(|reader| reader.len() as usize))
         });
         let get_lengths = try_join_all(get_lengths);
 
@@ -1239,8 +1234,11 @@ impl FileFragment {
         let (get_lengths, deletion_vector) = join!(get_lengths, deletion_vector);
 
         let get_lengths = get_lengths?;
-        let expected_length = get_lengths.first().unwrap_or(&0);
+        let expected_length = get_lengths.iter().flatten().next().unwrap_or(&0);
         for (length, data_file) in get_lengths.iter().zip(self.metadata.files.iter()) {
+            let Some(length) = length else {
+                continue;
+            };
             if length != expected_length {
                 let path = self
                     .dataset
